@@ -12,8 +12,8 @@ import ast
 from fractions import Fraction
 
 from . import gen_constants, pyexpr, pyloops, pyloops_ext
-from .common import Unsupported, digest, find_function, parse, read_source, write_if_changed
-from .gen_kernels import module_aliases, python_comment
+from .common import Unsupported, digest, find_class, find_function, find_method, parse, read_source, write_if_changed
+from .gen_kernels import check_decorators, module_aliases, python_comment
 from .gen_kernels_cbca import check_njit, lean_args
 from .pyexpr import INT, VAL, Param
 from .pyloops import AParam, Arr
@@ -46,9 +46,66 @@ def fvn_kernel():
     return k
 
 
+# (class, method, Lean name): pixel kernels `(disp, valid) -> (out_disp, out_val)` of interpolated_disparity.py
+PIXEL_KERNELS = [
+    ("SgmInterpolation", "interpolate_occlusion_sgm", "occlusionSgmPx"),
+]
+PX_PARAMS = [AParam("disp", VAL, 2), AParam("valid", INT, 2)]
+
+
+def pixel_kernels(fvn):
+    mod = parse(SRC)
+    numpy_names, table = const_table(mod, SRC)
+    # `find_valid_neighbors` must be the function of img_tools.py translated above
+    imported = [a for node in mod.body if isinstance(node, ast.ImportFrom) and node.module == "pandora.img_tools" and node.level == 0
+                for a in node.names if a.name == "find_valid_neighbors"]
+    callees = [pyloops_ext.Callee(a.asname or a.name, fvn) for a in imported]
+    for node in ast.walk(mod):
+        if isinstance(node, (ast.FunctionDef, ast.ClassDef)) and node.name in {c.py_name for c in callees}:
+            raise Unsupported(f"{SRC}: `{node.name}` is redefined in the module")
+    out = {}
+    for cls, meth, lean in PIXEL_KERNELS:
+        fn = find_method(find_class(mod, cls), meth)
+        check_decorators(fn, SRC)
+        k = pyloops_ext.translate_copy_kernel(fn, lean, PX_PARAMS, numpy_names=numpy_names, source_text=read_source(SRC),
+                                              consts=table, callees=callees)
+        k.origin = f"{SRC}: {cls}.{meth}"
+        k.fn = fn
+        out[lean] = k
+    return out
+
+
 def kernels():
     """-> {lean name: LoopKernel} read from the source tree now"""
-    return {"findValidNeighbors": fvn_kernel()}
+    fvn = fvn_kernel()
+    out = {"findValidNeighbors": fvn}
+    out.update(pixel_kernels(fvn))
+    return out
+
+
+def lean_px_result(k, res, vals) -> str:
+    if res != "ok":
+        return "PyLoops.Res.outOfBounds"
+    cells = [lean_val(v) if ty == VAL else str(int(v)) for v, (_, ty) in zip(vals, k.cells)]
+    return "PyLoops.Res.ok (" + ", ".join(cells) + ")"
+
+
+GOLDEN_PX = [
+    ([[3, None, 5]], [[0, 256, 0]]),
+    ([[1, 2, 3], [4, None, 6], [-7, 8, None]], [[1, 0, 64], [0, 256 + 4, 1024], [4, 0, 256]]),
+    ([[None, 2]], [[256, 0]]),
+]
+
+
+def golden_px(k) -> list:
+    out = []
+    for disp, flag in GOLDEN_PX:
+        args = [val_arr(disp), int_arr(flag)]
+        for c in range(len(flag)):
+            for r in range(len(flag[0])):
+                res, vals = pyloops_ext.evaluate_at(k, args, c, r)
+                out.append(f"example : {k.lean_name} {lean_args(k, args)} {c} {r} = {lean_px_result(k, res, vals)} := by decide +kernel")
+    return out
 
 
 # ---- golden values: (disp rows (None = NaN), flag rows, row, col); the 8 sgm directions
@@ -105,6 +162,10 @@ def render(ks) -> str:
             lines.append(pyloops_ext.render_vec(k))
             lines.append("-- what the translator's own evaluator computes on a few inputs, checked here by evaluation")
             lines += golden_fvn(k)
+        else:
+            lines.append(pyloops_ext.render_px(k))
+            lines.append("-- what the translator's own evaluator computes on a few inputs, checked here by evaluation")
+            lines += golden_px(k)
         lines.append("")
     lines.append("end Pandora.Generated.KernelsInterp")
     return "\n".join(lines) + "\n"
